@@ -61,12 +61,12 @@ Definition entry_C04 (v:val) : val :=
         | _, _ => vbad end
       | 4, [d; ev] =>
         match as_list d, as_optZ04 ev with
-        | Some d, Some ev => VL [of_res vlist (safe_map_values 0 d m (filter_of inv m) ev);
+        | Some d, Some ev => VL [of_res vlist (safe_map_values 0 ver d m (filter_of inv m) ev);
                                  vlist (map_spec (match ev with Some e => e | None => 0 end) d inv m)]
         | _, _ => vbad end
       | 5, [d; ev] =>
         match as_list2 d, as_optL04 ev with
-        | Some d, Some ev => VL [of_res vlist2 (safe_map_values [] d m (filter_of inv m) ev);
+        | Some d, Some ev => VL [of_res vlist2 (safe_map_values [] ver d m (filter_of inv m) ev);
                                  vlist2 (map_spec (match ev with Some e => e | None => [] end) d inv m)]
         | _, _ => vbad end
       | 6, [di; dv; ev] =>
